@@ -74,10 +74,11 @@ def build_harness():
     return exe
 
 # ----------------------------------------------------------------------------- CUT configurations
-STDS = {'c++17': ['-std=c++17'], 'c++17-abacus': ['-std=c++17', '-DFIXEDMATH_ENABLE_SQRT_ABACUS_ALGO'], 'c++20': ['-std=c++20'], 'c++2b': ['-std=c++2b']}
-R_ALL = ['%s-O%d-%s' % (cc, o, s) for cc in ('g++', 'clang++') for o in (0, 1, 2, 3) for s in STDS]
+STDS = {'gnu++17': ['-std=gnu++17'], 'gnu++20-ndebug': ['-std=gnu++20', '-DNDEBUG'], 'c++17-ndebug': ['-std=c++17', '-DNDEBUG'], 'c++17': ['-std=c++17'], 'c++17-abacus': ['-std=c++17', '-DFIXEDMATH_ENABLE_SQRT_ABACUS_ALGO'], 'c++20': ['-std=c++20'], 'c++2b': ['-std=c++2b']}
+R_ALL = ['%s-O%d-%s' % (cc, o, s) for cc in ('g++', 'clang++') for o in (0, 1, 2, 3) for s in ('c++17', 'c++17-abacus', 'c++20', 'c++2b')] + ['g++-O2-gnu++17', 'clang++-O1-gnu++17', 'clang++-O2-gnu++20-ndebug', 'g++-O2-c++17-ndebug', 'g++-Os-c++17', 'clang++-Os-c++20']
 R_QUICK = ['g++-O0-c++17', 'g++-O2-c++17-abacus', 'g++-O1-c++20', 'g++-O3-c++2b',
-           'clang++-O0-c++17-abacus', 'clang++-O1-c++17', 'clang++-O2-c++2b', 'clang++-O3-c++20']
+           'clang++-O0-c++17-abacus', 'clang++-O1-c++17', 'clang++-O2-c++2b', 'clang++-O3-c++20',
+           'g++-O2-gnu++17', 'clang++-O2-gnu++20-ndebug', 'g++-Os-c++17']     # dialect, NDEBUG and -Os builds (round 4 of the seeded changes)
 S_ALL = ['S-%s-O%d-%s' % (cc, o, s) for cc in ('g++', 'clang++') for o in (0, 1) for s in ('c++17', 'c++17-abacus')] + ['S-g++-O2-c++20', 'S-clang++-O2-c++2b', 'S-g++-O3-c++17', 'S-clang++-O3-c++17-abacus']
 S_QUICK = ['S-g++-O0-c++17', 'S-g++-O1-c++17-abacus', 'S-clang++-O0-c++17-abacus', 'S-clang++-O1-c++17']
 SAN = '-fsanitize=signed-integer-overflow,shift,integer-divide-by-zero,float-cast-overflow,bounds,bool,builtin,unreachable,return'
@@ -85,7 +86,7 @@ SAN = '-fsanitize=signed-integer-overflow,shift,integer-divide-by-zero,float-cas
 def cfg_cmd(name, outdir):
     san = name.startswith('S-')
     n = name[2:] if san else name
-    m = re.match(r'(g\+\+|clang\+\+)-O(\d)-(.*)$', n)
+    m = re.match(r'(g\+\+|clang\+\+)-O(\d|s)-(.*)$', n)
     cc, opt, std = m.group(1), m.group(2), m.group(3)
     so = os.path.join(outdir, 'cut_%s.so' % name)
     cmd = [cc] + STDS[std] + ['-O' + opt, '-fPIC', '-shared', '-fvisibility=hidden', '-w', '-D%s=1' % GUARD,
@@ -238,7 +239,7 @@ def build_kprog(seed, names):
     def one(n):
         so = os.path.join(out, 'cutk_%s.so' % n)
         if os.path.exists(so) and os.path.getmtime(so) >= os.path.getmtime(src): return None
-        m = re.match(r'(g\+\+|clang\+\+)-O(\d)-(.*)$', n)
+        m = re.match(r'(g\+\+|clang\+\+)-O(\d|s)-(.*)$', n)
         cmd = [m.group(1)] + STDS[m.group(3)] + ['-O' + m.group(2), '-fPIC', '-shared', '-fvisibility=hidden', '-w', '-I' + INC, '-I' + os.path.join(ROOT, 'cut'), src, '-o', so + '.tmp']
         r = run(cmd)
         if r.returncode: return n + ': ' + r.stdout[-2000:]
